@@ -636,6 +636,8 @@ class SymTuple:
     def of(v):
         if isinstance(v, SymTuple):
             return v
+        if isinstance(v, SymIntList):
+            return SymTuple(v.s)
         if isinstance(v, (tuple, list)):
             if not v:
                 return SymTuple(z3.Empty(IntSeq))
@@ -713,6 +715,36 @@ class SymTuple:
 
     def __repr__(self):
         return f"SymTuple({self.s})"
+
+
+class SymIntList:
+    """list(t) of a tuple of symbolic length: a MUTABLE integer sequence (insert / append), turned back by tuple(...)"""
+
+    def __init__(self, s):
+        self.s = s
+
+    def sym_len(self):
+        return SV(z3.Length(self.s))
+
+    def as_tuple(self):
+        return SymTuple(self.s)
+
+    def append(self, v):
+        self.s = z3.Concat(self.s, z3.Unit(lift(v)))
+
+    def insert(self, i, v):
+        # list.insert: negative positions count from the end, everything is clipped into [0, len]
+        n = z3.Length(self.s)
+        pos = SymTuple(self.s)._bound(i, n)
+        self.s = z3.Concat(z3.SubSeq(self.s, z3.IntVal(0), pos), z3.Unit(lift(v)), z3.SubSeq(self.s, pos, n - pos))
+
+    def __getitem__(self, i):
+        return SymTuple(self.s)[i]
+
+    def __iter__(self):
+        from .interp import Untranslatable
+
+        raise Untranslatable("iteration over a list of symbolic length")
 
 
 class SymRange:
